@@ -33,9 +33,10 @@ Section Border.
   Proof.
     induction es as [|[u v] t IH]; intros k inte bnd; cbn [enum_from p_ib_edges_loop].
     - cbn. rewrite !app_nil_r. reflexivity.
-    - rewrite is_edge_on_border_correct. cbn [bind].
+    - unfold g_ibe_call, g_ibe_test, g_ibe_then, g_ibe_else. cbn beta iota zeta delta [fst snd].
+      rewrite is_edge_on_border_correct. cbn [bind].
       change (sp_edge_on_border faces edges u v) with (Bd (u, v)).
-      cbn [filter snd]. destruct (Bd (u, v)); cbn [negb]; rewrite IH; cbn [map fst]; rewrite <- ?app_assoc; reflexivity.
+      cbn [filter snd]. destruct (Bd (u, v)); cbn [negb ib_push fst snd]; rewrite IH; cbn [map fst]; rewrite <- ?app_assoc; reflexivity.
   Qed.
 
   Definition bnd_ids : list Z := map fst (filter (fun ke => Bd (snd ke)) (enumerate edges)).
@@ -45,9 +46,13 @@ Section Border.
   Proof. unfold IBE, enumerate. fold edges. rewrite ib_edges_loop_spec. reflexivity. Qed.
 
   Lemma boundary_edges_correct : p_boundary_edges m f = Ok bnd_ids.
-  Proof. unfold p_boundary_edges, p_guard_edges. rewrite IBE_eq. destruct gattr_boundary_edges; reflexivity. Qed.
+  Proof.
+    unfold p_boundary_edges, p_guard_edges, p_rd_elist, gret_boundary_edges. rewrite IBE_eq. destruct gattr_boundary_edges; reflexivity.
+  Qed.
   Lemma interior_edges_correct : p_interior_edges m f = Ok int_ids.
-  Proof. unfold p_interior_edges, p_guard_edges. rewrite IBE_eq. destruct gattr_interior_edges; reflexivity. Qed.
+  Proof.
+    unfold p_interior_edges, p_guard_edges, p_rd_elist, gret_interior_edges. rewrite IBE_eq. destruct gattr_interior_edges; reflexivity.
+  Qed.
 
   Lemma bnd_ids_In e : In e bnd_ids <-> exists uv, zth edges e = Some uv /\ Bd uv = true.
   Proof.
@@ -130,6 +135,7 @@ Section Border.
     induction es as [|e t IH]; intros Hsub attr bset; cbn [p_ib_verts_loop].
     - exists attr, bset. split; [reflexivity|]. split; [|split; [|auto]]; intros x; rewrite touches_nil; tauto.
     - destruct (edge_at_ok e (Hsub e (or_introl eq_refl))) as ([a b] & E1 & E2 & _). rewrite E1. cbn [bind].
+      unfold g_ibv_marks, g_ibv_adds. cbn [fold_left fst snd].
       destruct (IH (fun e' H => Hsub e' (or_intror H)) (zset b true (zset a true attr)) (set_add b (set_add a bset)))
         as (attr' & bset' & E & I1 & I2 & I3).
       exists attr', bset'. split; [exact E|]. split; [|split].
@@ -155,7 +161,8 @@ Section Border.
   Proof.
     unfold IBV. rewrite boundary_edges_correct. cbn [bind].
     destruct (ib_verts_loop_spec bnd_ids (fun e H => H) zempty []) as (attr' & bset' & E & I1 & I2 & I3). rewrite E. cbn [bind fst snd].
-    exists attr', bset'. split; [reflexivity|]. split; [|split; [|apply I3; constructor]].
+    exists attr', bset'. split; [unfold g_ibv_interior_val, g_ibv_interior_test; rewrite map_id; reflexivity|].
+    split; [|split; [|apply I3; constructor]].
     - intros x. rewrite I1, vb_get_empty. split; [intros [H|H]; [discriminate|exact H]|auto].
     - intros x. rewrite I2. cbn. tauto.
   Qed.
@@ -177,7 +184,7 @@ Section Border.
 
   Lemma is_vertex_on_border_correct x : p_is_vertex_on_border m f x = Ok (sp_vertex_on_border faces edges x).
   Proof.
-    destruct IBV_spec as (attr & bv & E & I1 & _). unfold p_is_vertex_on_border, p_guard_verts. rewrite E.
+    destruct IBV_spec as (attr & bv & E & I1 & _). unfold p_is_vertex_on_border, p_guard_verts, g_is_vertex_on_border_key. rewrite E.
     assert (Eb : vb_get attr x = sp_vertex_on_border faces edges x).
     { destruct (vb_get attr x) eqn:E1, (sp_vertex_on_border faces edges x) eqn:E2; auto.
       - apply I1, touches_spec in E1. congruence.
@@ -192,7 +199,7 @@ Section Border.
   Proof.
     destruct IBV_spec as (attr & bv & E & I1 & I2 & I3).
     exists bv, (filter (fun x => negb (vb_get attr x)) (zrange (m_nv m))).
-    unfold p_boundary_vertices, p_interior_vertices, p_guard_verts. rewrite E.
+    unfold p_boundary_vertices, p_interior_vertices, p_guard_verts, p_rd_vlist, gret_boundary_vertices, gret_interior_vertices. rewrite E.
     split; [destruct gattr_boundary_vertices; reflexivity|]. split; [destruct gattr_interior_vertices; reflexivity|].
     split; [exact I3|]. split; [intros x; rewrite I2; apply touches_spec|].
     apply filter_ext. intros x. f_equal.
